@@ -16,6 +16,7 @@ not change the output):
   `round_smart`'s default precision; the `on_error` policy literals;
 * the `add_units` decorator: the factor expression (`np.power(self.units, power)`: the Quantity, not the bare Unit), its guard,
   and every `@add_units(compact=…, power=…)` site with its literals;
+* `VoxelNeuron.volume`: which `units_xyz` axes and which count are multiplied;
 * `make_dotprops`: per input-type branch the metadata keys handed to the new Dotprops and whether that happens before the
   first (early) `return`;
 * the `units` setter: accepted lengths, spelling substitutions, the template for plain numbers;
@@ -407,6 +408,42 @@ def extract_make_dotprops_meta(cu_tree):
     return out
 
 
+def extract_voxel_volume(voxel_tree):
+    """`VoxelNeuron.volume`: the axes of `self.units_xyz[i]` multiplied into the volume of one voxel, the count it is multiplied
+    with, and whether the value is compacted"""
+    cls = _class(voxel_tree, 'VoxelNeuron')
+    fn = _method(cls, 'volume')
+    if fn is None:
+        raise Untranslatable('VoxelNeuron.volume not found')
+    env = {}
+    for n in ast.walk(fn):
+        if isinstance(n, ast.Assign) and len(n.targets) == 1 and isinstance(n.targets[0], ast.Name):
+            env[n.targets[0].id] = n.value
+    ret = next((n for n in ast.walk(fn) if isinstance(n, ast.Return) and n.value is not None), None)
+    if ret is None:
+        raise Untranslatable('VoxelNeuron.volume: no return')
+    e = ret.value
+    compact = False
+    if isinstance(e, ast.Call) and isinstance(e.func, ast.Attribute) and e.func.attr == 'to_compact' and not e.args:
+        compact, e = True, e.func.value
+    e = _resolve(e, env)
+
+    def factors(x):
+        if isinstance(x, ast.BinOp) and isinstance(x.op, ast.Mult):
+            return factors(x.left) + factors(x.right)
+        return [x]
+    axes, count = [], []
+    for f in factors(e):
+        t = _src(f)
+        if isinstance(f, ast.Subscript) and _src(f.value) == 'self.units_xyz' and isinstance(_lit(f.slice), int):
+            axes.append(_lit(f.slice))
+        else:
+            count.append(t)
+    if len(count) != 1:
+        raise Untranslatable(f'VoxelNeuron.volume: unexpected factors {count}')
+    return dict(axes=axes, count=count[0], compact=compact)
+
+
 def extract_units_setter(base_tree):
     cls = _class(base_tree, 'UnitObject')
     fn = None
@@ -524,6 +561,7 @@ def generate(repo: Path):
     tns = extract_to_neuron_space(cu, misc)
     setter = extract_units_setter(base)
     mdp = extract_make_dotprops_meta(cu)
+    vvol = extract_voxel_volume(trees['VoxelNeuron'])
     addu = extract_add_units(cu, [(c, trees[c]) for c, _ in CLASSES])
     guards = [extract_init_guard(_class(trees[c], c), c) for c, _ in CLASSES]
     sites = extract_map_sites(repo)
@@ -608,6 +646,10 @@ def generate(repo: Path):
     A('/-- every decorated property: (class, property, compact, power) -/')
     A('def addUnitsSites : List (String × String × Bool × Nat) := [' +
       ', '.join(f'({_s(c)}, {_s(m)}, {_b(cp)}, {int(pw)})' for c, m, cp, pw in addu['sites']) + ']')
+    A('')
+    A('/-- `VoxelNeuron.volume`: `<count> * self.units_xyz[i] * …` — the axes `i`, the count expression -/')
+    A(f'def voxelVolumeAxes : List Nat := [{", ".join(str(int(a)) for a in vvol["axes"])}]')
+    A(f'def voxelVolumeCount : String := {_s(vvol["count"])}')
     A('')
     A('/-- `make_dotprops`, per input-type branch: (class, metadata update precedes the first `return`, keys passed on) -/')
     A('def makeDotpropsMeta : List (String × Bool × List String) := [' +
